@@ -758,6 +758,8 @@ type c20g struct {
 	pMacro float64
 	pQuote float64
 	depth  int
+	uqNode []string // C21: operands of ~unquote are these variable names
+	uqList []string // C21: operands of ~unquote_splice
 }
 
 var c20vars = []string{"a", "b", "c", "x", "y", "z", "f", "g", "n", "s", "v", "w"}
@@ -917,6 +919,9 @@ func (g *c20g) quote(d int) string {
 		return s
 	case 4, 5:
 		if g.depth > 0 || g.r.Intn(6) == 0 {
+			if g.uqNode != nil {
+				return g.unquoteVar("~unquote", g.uqNode)
+			}
 			g.depth--
 			s := "~unquote{" + g.stmts(d, 1, 2) + "}"
 			g.depth++
@@ -925,6 +930,9 @@ func (g *c20g) quote(d int) string {
 		return "~quote{" + g.expr(d) + "}"
 	case 6:
 		if g.depth > 0 || g.r.Intn(6) == 0 {
+			if g.uqNode != nil {
+				return g.unquoteVar("~unquote_splice", g.uqList)
+			}
 			g.depth--
 			s := "~unquote_splice{" + g.stmts(d, 1, 2) + "}"
 			g.depth++
@@ -934,7 +942,34 @@ func (g *c20g) quote(d int) string {
 	case 7:
 		return g.pick([]string{"~quote", "~quasiquote"}) + " " + g.pick([]string{"x", "7", "\"s\""})
 	}
+	if g.uqNode != nil {
+		g.depth++
+		s := "~quasiquote{" + g.stmts(d, 1, 2) + "; " + g.unquoteVar("~unquote", g.uqNode) + "}"
+		g.depth--
+		return s
+	}
 	return "~quasiquote{~quasiquote{" + g.stmts(d, 1, 2) + "; ~unquote{~unquote{" + g.expr(d) + "}}}}"
+}
+
+// C21: an unquote chain as long as the current quasiquote depth (sometimes shorter), ending in a variable;
+// the innermost operator is the given one, the outer ones are ~unquote
+func (g *c20g) unquoteVar(inner string, vars []string) string {
+	n := g.depth
+	if n < 1 {
+		n = 1
+	}
+	if n > 1 && g.r.Intn(4) == 0 {
+		n--
+	}
+	s := inner + "{" + g.pick(vars) + "}"
+	for i := 1; i < n; i++ {
+		if g.r.Intn(5) == 0 {
+			s = "~unquote_splice{" + s + "}"
+		} else {
+			s = "~unquote{" + s + "}"
+		}
+	}
+	return s
 }
 
 func (g *c20g) block(d int) string { return "{ " + g.stmts(d, 0, 3) + " }" }
